@@ -925,9 +925,9 @@ def c07_calculate(ctx, l, sig, av, me, ob):
         if at is None or hy is None:
             violation(ctx, 'C07', '%s:calculate-shape' % sig, P.feasible(both), 'heading/speed are not computed with atan2/hypot')
             continue
-        ob('calculate-east-component', z3.Implies(both, z3.And(z3.fpEQ(at.arg(0), fe), z3.fpEQ(hy.arg(0), fe))),
+        ob('calculate-east-component', z3.Implies(both, z3.And(at.arg(0) == fe, z3.fpEQ(hy.arg(0), fe))),
            'east component is not (raw-1) kt (x4 for subtype 2) with its direction sign, or is not the first atan2/hypot argument')
-        ob('calculate-north-component', z3.Implies(both, z3.And(z3.fpEQ(at.arg(1), fn_), z3.fpEQ(hy.arg(1), fn_))),
+        ob('calculate-north-component', z3.Implies(both, z3.And(at.arg(1) == fn_, z3.fpEQ(hy.arg(1), fn_))),
            'north component is not (raw-1) kt (x4 for subtype 2) with its direction sign, or is not the second atan2/hypot argument')
         h = z3.fpMul(z3.RNE(), at, K)
         from mirsym.execu import fp_cmp
